@@ -23,7 +23,7 @@ def np_dense(tensors, out):
     labels = sorted({i for inds, _ in tensors for i in inds} | set(out))
     sym = {x: LETTERS[k] for k, x in enumerate(labels)}
     eq = ",".join("".join(sym[i] for i in inds) for inds, _ in tensors) + "->" + "".join(sym[i] for i in out)
-    return np.einsum(eq, *[np.asarray(a).astype(complex) for _, a in tensors])
+    return np.einsum(eq, *[np.asarray(a).astype(complex) for _, a in tensors], optimize="greedy")
 
 
 def tn_tensors(tn):
@@ -134,7 +134,7 @@ def _gen_vector(edges, sites, pdims, bdims, nprng, sparse, label=lambda s: s):
         inds, shape = [], []
         for k, (a, b) in enumerate(edges):
             if s in (a, b):
-                inds.append("b%d" % k)
+                inds.append("x%d" % k)
                 shape.append(bdims[k])
         inds.append("k{}".format(label(s)))
         shape.append(pdims[s])
